@@ -45,6 +45,7 @@ fn plan(prop: &str, o: &mut Out) {
         "C04" => {
             g_maxlen_fmt(o, &all);
             g_edge_fill(o, &all);
+            g_swallow_long(o, &all);
             g_long_valid(o, &all);
             g_grid(o, &all);
             g_exp_limits(o);
@@ -172,6 +173,7 @@ fn plan(prop: &str, o: &mut Out) {
             g_edge_fill(o, &all);
             g_long_valid(o, &all);
             g_swallow_invalid(o, &all);
+            g_swallow_long(o, &all);
             // invalid texts through both entry points: they must agree on rejection too
             g_targeted_invalid(o);
         }
